@@ -223,18 +223,6 @@ theorem clientSharedKeys_eq_spec (c : Crypto) (secret : Bytes) :
   unfold clientSharedKeys specClientKeys
   simp [currentClientVersion, sharedKeysRefactorMinVersion]
 
-/-- versions ≥ 2: the station's selection *is* the client's `SelectPhantom` on that generation -/
-theorem stationSelect_eq_client {h : Hk} {cfg : Cfg} {gc : GenCfg} (seed : Bytes) {gen ver : Nat} (v6 : Bool)
-    (hg : cfg.lookup gen = some gc) (hv : hkdfMinVersion ≤ ver) :
-    stationSelect h cfg seed gen ver v6 = .done (clientSelect h gc seed v6) := by
-  unfold stationSelect clientSelect
-  have h2 : ¬ ver < hkdfMinVersion := by omega
-  have h1 : ¬ ver < selectionMinGeneration := by
-    unfold hkdfMinVersion at hv; unfold selectionMinGeneration; omega
-  rw [hg]
-  simp only [subnetsByVersion, if_neg h2, if_neg h1, Prog.bind_eq, Prog.bind]
-  cases getSubnetsHkdf (h.hk seed labelSubnet) h.lim gc <;> rfl
-
 theorem ident_agree (c : Crypto) (t : Transport) (secret : Bytes) (keys : Keys) (ht : t ≠ .dtls) :
     stationIdentifier c t secret keys = clientIdentifier c t secret keys := by
   cases t <;> first | rfl | exact absurd rfl ht
@@ -287,12 +275,7 @@ theorem clientPort_noRand (k : Consts) (s : Stream) (lim : Nat) (t : Transport) 
 /-- the finished value of a `done`-ending derivation does not depend on the generator -/
 theorem run_done {α : Type} (R : Rng) (a : α) (g : R.G) : ((Prog.done a).run R g).1 = a := rfl
 
-/-- **Station = client, every library version.**  If the client of version `r.ver` derives a
-rendezvous (for versions 0/1: with a well-formed address, from a configuration in which every group
-lists subnets that fit their family — the contract of `net.ParseCIDR`), the station derives the same
-seed, phantom address and port from the registration, and the same identifier (DTLS has no client
-tag).  For every secret, configuration, transport, well-typed parameters, every crypto instantiation
-and every math/rand implementation in any state on either side. -/
+/-- **Station = client, every library version** (see `CJ.Props.C01.station_eq_client`). -/
 theorem station_eq_client (c : Crypto) (k : Consts) (cfg : Cfg) (gc : GenCfg) (r : Reg) (R : Rng) (g g' : R.G)
     (rv : Rendezvous)
     (hg : cfg.lookup r.gen = some gc)
@@ -339,13 +322,13 @@ theorem station_eq_client (c : Crypto) (k : Consts) (cfg : Cfg) (gc : GenCfg) (r
     · -- versions 0 and 1: the frozen clients
       obtain ⟨hlen, hnil, hfit⟩ := hleg hv
       rw [if_pos hv] at hc
-      simp only [Prog.bind_eq, Prog.run_bind] at hc
+      simp only [Prog.run_bind] at hc
       cases hcs : ((compatSelect (decide (r.ver < selectionMinGeneration)) gc keys.seed r.v6).run R g).1 with
-      | err e => rw [hcs] at hc; simp [Prog.pure_eq, Prog.run, finish] at hc
-      | panic w => rw [hcs] at hc; simp [Prog.pure_eq, Prog.run, finish] at hc
+      | err e => rw [hcs] at hc; simp [Prog.run, Prog.bind, finish] at hc
+      | panic w => rw [hcs] at hc; simp [Prog.run, Prog.bind, finish] at hc
       | ok b =>
         rw [hcs] at hc
-        simp only [Prog.pure_eq, Prog.run] at hc
+        simp only [Prog.run, Prog.bind] at hc
         have hb : rv.addr = b := by
           unfold finish at hc
           simp only at hc
@@ -366,16 +349,116 @@ theorem station_eq_client (c : Crypto) (k : Consts) (cfg : Cfg) (gc : GenCfg) (r
         intro q hq
         have hver : r.ver < k.randomizeMinVersion := by omega
         rw [clientPort_noRand] at hq
-        have := clientPort_old k (portStream c keys.seed) c.hk.lim r.transport r.ver r.params rp hver
-        rw [← hq] at this
-        exact port_agree k _ _ _ _ _ _ _ htab hpre hd hty this
+        cases hq
+        exact port_agree k _ _ _ _ _ _ _ htab hpre hd hty
+          (clientPort_old k (portStream c keys.seed) c.hk.lim r.transport r.ver r.params rp hver)
     · -- versions ≥ 2: SelectPhantom
       rw [if_neg hv] at hc
-      simp only [Prog.pure_eq, Prog.run] at hc
       rw [stationSelect_eq_client keys.seed r.v6 hg (by omega)]
       simp only [Prog.run]
       apply wrap _ hc
       intro a ha
       exact ⟨a, ha, rfl, fun q hq => port_agree k _ _ _ _ _ _ _ htab hpre hd hty hq⟩
+
+end CJ.Derive
+
+namespace CJ.Derive
+open CJ.Phantom CJ.Port
+
+theorem obfs4Keys_not_panic (c : Crypto) (secret : Bytes) (pos : Nat) (w : String) :
+    obfs4Keys c secret pos ≠ .panic w := by
+  unfold obfs4Keys
+  simp only
+  split
+  · simp
+  · split <;> simp
+
+theorem stationIdentifier_not_panic (c : Crypto) (t : Transport) (secret : Bytes) (keys : Keys) (w : String) :
+    stationIdentifier c t secret keys ≠ .panic w := by
+  unfold stationIdentifier
+  cases t <;> simp only
+  all_goals (try simp)
+  split
+  · simp
+  · simp
+  · rename_i w' hw; exact absurd hw (obfs4Keys_not_panic c secret _ w')
+
+theorem finish_not_panic {seed : Bytes} {a : Outcome Addr} {port : Bool → POut Nat} {ident : Outcome Bytes}
+    (ha : ∀ w, a ≠ .panic w) (hp : ∀ rp w, port rp ≠ .panic w) (hi : ∀ w, ident ≠ .panic w) (w : String) :
+    finish seed a port ident ≠ .panic w := by
+  unfold finish
+  cases a with
+  | err e => simp
+  | panic w' => exact absurd rfl (ha w')
+  | ok a =>
+    simp only
+    cases hp' : port a.randPort with
+    | err e => simp
+    | panic w' => exact absurd hp' (hp _ w')
+    | ok q =>
+      simp only
+      cases ident with
+      | err e => simp
+      | panic w' => exact absurd rfl (hi w')
+      | ok i => simp
+
+theorem genSharedKeys_not_panic (c : Crypto) (ver : Nat) (secret : Bytes) (w : String) :
+    genSharedKeys c ver secret ≠ .panic w := by
+  unfold genSharedKeys
+  simp only
+  split
+  · simp
+  · split <;> simp
+
+theorem stationDerive_no_panic (c : Crypto) (k : Consts) (hk : k.WF) (cfg : Cfg) (r : Reg) :
+    (stationDerive c k cfg r).All intnContract (fun o => ∀ w, o ≠ .panic w) := by
+  unfold stationDerive
+  split
+  · intro w; simp
+  · rename_i w' hw; exact absurd hw (genSharedKeys_not_panic c _ _ w')
+  · rw [Prog.bind_eq]
+    apply Prog.All_bind
+    apply Prog.All_mono _ (stationSelect_no_panic c.hk cfg _ r.gen r.ver r.v6)
+    intro a ha w
+    exact finish_not_panic ha (fun rp w => stationPort_not_panic k hk _ _ _ _ _ _ w)
+      (fun w => stationIdentifier_not_panic c _ _ _ w) w
+
+theorem stationDerive_seeded (c : Crypto) (k : Consts) (cfg : Cfg) (r : Reg) : (stationDerive c k cfg r).Seeded := by
+  unfold stationDerive
+  split
+  · trivial
+  · trivial
+  · rw [Prog.bind_eq]
+    exact Prog.Seeded_bind (stationSelect_seeded ..) (fun _ => trivial)
+
+/-- the station's phantom, when it derives one, is contained as C14 demands -/
+theorem stationDerive_addr (c : Crypto) (k : Consts) (cfg : Cfg) (r : Reg) :
+    (stationDerive c k cfg r).All anyDraw (fun o => ∀ rs, o = .ok rs →
+      ∃ gc, cfg.lookup r.gen = some gc ∧ ∃ n, FromCfg gc n ∧ n.v4 = (!r.v6) ∧
+        rs.addr.length = famLen n.v4 ∧ n.base ≤ beNat rs.addr ∧ beNat rs.addr < n.base + 2 ^ (n.bits - n.ones)) := by
+  unfold stationDerive
+  split
+  · intro rs h; cases h
+  · intro rs h; cases h
+  · rename_i keys _
+    rw [Prog.bind_eq]
+    apply Prog.All_bind
+    apply Prog.All_mono _ (stationSelect_all anyDraw c.hk cfg keys.seed r.gen r.ver r.v6)
+    intro a ha rs hrs
+    unfold finish at hrs
+    cases a with
+    | err e => cases hrs
+    | panic w => cases hrs
+    | ok a =>
+      obtain ⟨gc, hgc, n, hn, hf, hl, hlo, hhi, _⟩ := ha a rfl
+      simp only at hrs
+      split at hrs
+      · cases hrs
+      · cases hrs
+      · split at hrs
+        · cases hrs
+        · cases hrs
+        · cases hrs
+          exact ⟨gc, hgc, n, hn, hf, hl, hlo, hhi⟩
 
 end CJ.Derive
